@@ -209,12 +209,12 @@ PROPS = {
     "C05": {
         "level": "exploration",
         "level_text": "Schedule exploration with a harness-owned scheduler: request goroutines on a real witness park before every storage call of an instrumented LogStatePersistence and exactly one is released at a time; ALL interleavings of every 2-request (quick) and 3-request (thorough) scenario on the in-memory store and on SQLite with the production one-connection pool are enumerated by DFS, 3/4-request and generated scenarios are sampled with rapid-drawn schedules; each history is checked by brute-force linearizability against a sequential reference witness (real-time order respected, storage error = permitted no-op only when overlapping another write to the same log) incl. the final state; deadlocks are reported. Thorough adds an unscheduled many-goroutine stress run built with -race with chain/monotonic-read/lost-update invariants.",
-        "level_note": "Interleavings below storage-call granularity (Go memory model) are reached only by the -race stress run, which samples. The scheduler models the single SQLite connection (a request needing it is not offered while another holds a write handle); a 2 s no-park timeout only influences which schedule is explored, a 10 s no-progress state is reported as deadlock.",
+        "level_note": "Interleavings below storage-call granularity (Go memory model) are reached only by the -race stress run, which samples. The scheduler models the single SQLite connection (a request needing it is not offered while another holds a write handle); a 2 s no-park timeout only influences which schedule is explored, a no-progress state is reported as deadlock only after 10 s plus a 20 s confirmation wait.",
         "technique": "systematic schedule exploration (stateless DFS over storage-call interleavings) + rapid-sampled schedules with a linearizability oracle; -race stress",
         "assumptions": HIST_ASSUME,
         "parts": {
             "two": {"bin": "verifh", "run": "TestC05Two", "kind": "plain", "shards": {"quick": 8, "thorough": 12}},
-            "three": {"bin": "verifh", "run": "TestC05Three", "kind": "plain", "shards": {"quick": 14, "thorough": 14}, "tiers": ["thorough"]},
+            "three": {"bin": "verifh", "run": "TestC05Three", "kind": "plain", "shards": {"quick": 16, "thorough": 16}, "tiers": ["thorough"]},
             "sampled": {"bin": "verifh", "run": "TestC05Sampled", "checks": {"quick": 2000, "thorough": 320000}, "shards": {"quick": 4, "thorough": 16}},
             "stress": {"bin": "verifh", "run": "TestC05Stress", "kind": "plain", "race": True, "tiers": ["thorough"]},
             "stress-lite": {"bin": "verifh", "run": "TestC05Stress", "kind": "plain", "tiers": ["quick"]},
